@@ -1,6 +1,8 @@
 package main
 
 import (
+	"fmt"
+	"os"
 	"go/token"
 	"go/types"
 	"strings"
@@ -324,44 +326,251 @@ func (p *Prog) computeEffects() {
 			e.Reads[l] = true
 		}
 	}
-	// transitive closure (fixpoint)
+	// transitive closure (fixpoint) over refined call sites: a call through a
+	// function-typed parameter is accounted for at the callers that supply the
+	// function (context sensitivity for Visit/scan-style higher-order helpers).
+	p.buildParamCalls()
 	for changed := true; changed; {
 		changed = false
-		for fn, node := range p.CG.Nodes {
-			if fn == nil {
+		for fn := range p.CG.Nodes {
+			if fn == nil || fn.Blocks == nil {
 				continue
 			}
 			e := p.mods[fn]
-			for _, out := range node.Out {
-				callee := out.Callee.Func
-				ce := p.mods[callee]
-				if ce == nil {
-					continue
-				}
-				for l, mask := range ce.WMask {
-					if fv, ok := l.(*ssa.FreeVar); ok {
-						// a closure's captured variable is a local of the function that created the closure
-						if fv.Parent() != nil && fv.Parent().Parent() == fn {
+			for _, b := range fn.Blocks {
+				for _, in := range b.Instrs {
+					call, ok := in.(ssa.CallInstruction)
+					if !ok {
+						continue
+					}
+					for _, sc := range p.siteCallees(call) {
+						ce := p.mods[sc.fn]
+						if ce == nil {
 							continue
 						}
+						for l, mask := range ce.WMask {
+							if fv, ok := l.(*ssa.FreeVar); ok {
+								if fv.Parent() != nil && fv.Parent().Parent() == fn {
+									continue
+								}
+							}
+							m2 := heapBit
+							if sc.direct {
+								m2 = p.translateMask(fn, call, sc.fn, mask)
+							} else if mask == 0 {
+								m2 = 0
+							}
+							if e.addWrite(l, m2) {
+								changed = true
+							}
+						}
+						for l := range ce.Reads {
+							if !e.Reads[l] {
+								e.Reads[l] = true
+								changed = true
+							}
+						}
+						if ce.Other && !e.Other {
+							e.Other = true
+							changed = true
+						}
 					}
-					if e.addWrite(l, p.translateMask(fn, out.Site, callee, mask)) {
-						changed = true
-					}
-				}
-				for l := range ce.Reads {
-					if !e.Reads[l] {
-						e.Reads[l] = true
-						changed = true
-					}
-				}
-				if ce.Other && !e.Other {
-					e.Other = true
-					changed = true
 				}
 			}
 		}
 	}
+}
+
+type siteCallee struct {
+	fn     *ssa.Function
+	direct bool // called with this site's own arguments (masks translate); false for functions passed as arguments
+}
+
+// buildParamCalls computes, per function, which of its function-typed
+// parameters it invokes (directly or by passing them on).
+func (p *Prog) buildParamCalls() {
+	p.paramCalls = map[*ssa.Function]map[int]bool{}
+	idxOf := func(fn *ssa.Function, v ssa.Value) int {
+		for i, prm := range fn.Params {
+			if ssa.Value(prm) == v {
+				return i
+			}
+		}
+		return -1
+	}
+	for fn := range p.CG.Nodes {
+		if fn == nil || fn.Blocks == nil {
+			continue
+		}
+		pk := fnPkg(fn)
+		if pk == nil || !strings.HasPrefix(pk.Path(), modPath) {
+			continue
+		}
+		for _, b := range fn.Blocks {
+			for _, in := range b.Instrs {
+				if call, ok := in.(ssa.CallInstruction); ok && !call.Common().IsInvoke() {
+					if i := idxOf(fn, call.Common().Value); i >= 0 {
+						if p.paramCalls[fn] == nil {
+							p.paramCalls[fn] = map[int]bool{}
+						}
+						p.paramCalls[fn][i] = true
+					}
+				}
+			}
+		}
+	}
+	for changed := true; changed; {
+		changed = false
+		for fn := range p.CG.Nodes {
+			if fn == nil || fn.Blocks == nil {
+				continue
+			}
+			for _, b := range fn.Blocks {
+				for _, in := range b.Instrs {
+					call, ok := in.(ssa.CallInstruction)
+					if !ok {
+						continue
+					}
+					callee := call.Common().StaticCallee()
+					if callee == nil || p.paramCalls[callee] == nil {
+						continue
+					}
+					args := callArgs(call)
+					for j := range p.paramCalls[callee] {
+						if j < len(args) {
+							if i := idxOf(fn, args[j]); i >= 0 {
+								if p.paramCalls[fn] == nil {
+									p.paramCalls[fn] = map[int]bool{}
+								}
+								if !p.paramCalls[fn][i] {
+									p.paramCalls[fn][i] = true
+									changed = true
+								}
+							}
+						}
+					}
+				}
+			}
+		}
+	}
+}
+
+// funcValues resolves a function-typed value to the functions it denotes;
+// ok=false if some source is not statically known.
+func funcValues(v ssa.Value, depth int) (fns []*ssa.Function, ok bool) {
+	if depth > 4 {
+		return nil, false
+	}
+	switch x := v.(type) {
+	case *ssa.MakeClosure:
+		return []*ssa.Function{x.Fn.(*ssa.Function)}, true
+	case *ssa.Function:
+		return []*ssa.Function{x}, true
+	case *ssa.ChangeType:
+		return funcValues(x.X, depth+1)
+	case *ssa.Phi:
+		for _, e := range x.Edges {
+			f, ok := funcValues(e, depth+1)
+			if !ok {
+				return nil, false
+			}
+			fns = append(fns, f...)
+		}
+		return fns, true
+	case *ssa.Const:
+		return nil, true // nil func
+	}
+	return nil, false
+}
+
+// siteCallees: the functions a call instruction may run, with calls through
+// the enclosing function's own parameters deferred to its callers and
+// function arguments of higher-order callees attributed to this site.
+func (p *Prog) siteCallees(call ssa.CallInstruction) []siteCallee {
+	caller := call.Parent()
+	cc := call.Common()
+	if !cc.IsInvoke() {
+		if prm, ok := cc.Value.(*ssa.Parameter); ok && p.paramCalls[caller] != nil {
+			for i, q := range caller.Params {
+				if q == prm && p.paramCalls[caller][i] && p.allCallersSupply(caller, i) {
+					return nil
+				}
+			}
+		}
+	}
+	var out []siteCallee
+	args := callArgs(call)
+	for _, callee := range p.Callees(call) {
+		out = append(out, siteCallee{callee, true})
+		for j := range p.paramCalls[callee] {
+			if j >= len(args) {
+				continue
+			}
+			if _, isPrm := args[j].(*ssa.Parameter); isPrm {
+				continue // our own caller supplies it
+			}
+			fns, ok := funcValues(args[j], 0)
+			if ok {
+				for _, f := range fns {
+					out = append(out, siteCallee{f, false})
+				}
+				continue
+			}
+			// unknown function value: everything the call graph allows at the callee's parameter-call sites
+			for _, b := range callee.Blocks {
+				for _, in := range b.Instrs {
+					if c2, ok := in.(ssa.CallInstruction); ok && !c2.Common().IsInvoke() && c2.Common().Value == ssa.Value(callee.Params[j]) {
+						for _, f := range p.Callees(c2) {
+							out = append(out, siteCallee{f, false})
+						}
+					}
+				}
+			}
+		}
+	}
+	return out
+}
+
+// allCallersSupply: every call site of fn passes a statically known function
+// (or its own parameter) for parameter i, so deferring is complete.
+func (p *Prog) allCallersSupply(fn *ssa.Function, i int) bool {
+	key := [2]any{fn, i}
+	if v, ok := p.supplyCache[key]; ok {
+		return v
+	}
+	res := true
+	node := p.CG.Nodes[fn]
+	if node == nil || len(node.In) == 0 {
+		res = false
+	} else {
+		for _, e := range node.In {
+			if e.Site == nil {
+				res = false
+				break
+			}
+			if e.Site.Common().StaticCallee() != fn {
+				res = false // fn itself is called dynamically
+				break
+			}
+			args := callArgs(e.Site)
+			if i >= len(args) {
+				res = false
+				break
+			}
+			if _, isPrm := args[i].(*ssa.Parameter); isPrm {
+				continue
+			}
+			if _, ok := funcValues(args[i], 0); !ok {
+				res = false
+				break
+			}
+		}
+	}
+	if p.supplyCache == nil {
+		p.supplyCache = map[[2]any]bool{}
+	}
+	p.supplyCache[key] = res
+	return res
 }
 
 // translateMask maps a callee's write mask to the caller's frame at a call site.
@@ -487,9 +696,13 @@ func (p *Prog) isStatsField(f *types.Var) bool {
 // callees the call graph resolves it to, as masks in the caller's frame.
 func (p *Prog) CallWrites(call ssa.CallInstruction) map[Loc]uint64 {
 	out := map[Loc]uint64{}
-	for _, callee := range p.Callees(call) {
-		for l, m := range p.Effects(callee).WMask {
-			out[l] |= p.translateMask(call.Parent(), call, callee, m)
+	for _, sc := range p.siteCallees(call) {
+		for l, m := range p.Effects(sc.fn).WMask {
+			if sc.direct {
+				out[l] |= p.translateMask(call.Parent(), call, sc.fn, m)
+			} else if m != 0 {
+				out[l] |= heapBit
+			}
 		}
 	}
 	return out
@@ -628,6 +841,9 @@ func (p *Prog) Killed(between []ssa.Instruction, locs map[Loc]bool, symRoots map
 					continue
 				}
 				if locs[l] {
+					if os.Getenv("RAFTLINT_DEBUGKILL") != "" {
+						fmt.Fprintf(os.Stderr, "KILL %v by call at %s\n", l, p.InstrPos(in))
+					}
 					return in
 				}
 				if fv, ok := l.(*ssa.FreeVar); ok {
